@@ -339,6 +339,8 @@ impl<Aux> Vm<'_, Aux> {
             assert!(!program.is_null());
             &*program
         };
+        #[cfg(feature = "verif-hooks")]
+        let _verif_run_guard = crate::verif::RunGuard::enter(&self.runtime_data);
         let len = program.bytecode.len();
         // FIXME: should store in VM
         let mut remaining_iters = self.max_instr;
@@ -372,6 +374,8 @@ impl<Aux> Vm<'_, Aux> {
             let instr: Instruction = unsafe { transmute(instr) };
             let src_ptr = *instr_ptr;
             *instr_ptr += 1;
+            #[cfg(feature = "verif-hooks")]
+            crate::verif::with(|c| c.on_dispatch(instr as u8, src_ptr, &self.runtime_data));
             debug!("Executing: {instr:?} instr_ptr: {instr_ptr}");
             match instr {
                 Instruction::InitTable => {
@@ -751,6 +755,8 @@ impl<Aux> Vm<'_, Aux> {
                     })?;
                 }
             }
+            #[cfg(feature = "verif-hooks")]
+            crate::verif::with(|c| c.after_instr(&self.runtime_data));
             debug!("Stack: {}", self.runtime_data.value_stack);
         }
 
